@@ -81,7 +81,16 @@ func c08Rules(up string) []*rconfig.RuleSet {
 		add(s+"-docsany", s, "/"+s+"/docs/*any", nil, false)
 		add(s+"-punct", s, "/"+s+"/ab.c-d_e~f/:x", nil, false)
 		add(s+"-two", s, "/"+s+"/t/:a/mid/:b", nil, false)
+		// a literal expression that contains an escape which stays an escape in every spelling, next to a wildcard
+		add(s+"-esc", s, "/"+s+"/lit/annual%20report", nil, false)
+		add(s+"-escw", s, "/"+s+"/lit/:x", nil, false)
 	}
+	// rules of one rule set sharing a path expression but not the setting: the first one does not apply (path_params),
+	// the request is answered under the setting of the second one
+	add("on-mixa", "on", "/mix/f/:name", []rconfig.ParameterMatcher{{Name: "name", Type: "glob", Value: "zzz*"}}, false)
+	add("no_decode-mixb", "no_decode", "/mix/f/:name", nil, false)
+	add("no_decode-mixc", "no_decode", "/mix/g/:name", []rconfig.ParameterMatcher{{Name: "name", Type: "glob", Value: "zzz*"}}, false)
+	add("on-mixd", "on", "/mix/g/:name", nil, false)
 	return []*rconfig.RuleSet{rs}
 }
 
@@ -97,9 +106,12 @@ func c08BasePaths() []string {
 			p+"/ab.c-d_e~f/zz", p+"/ab.c-d_e~f/Z-9",
 			p+"/t/one/mid/two", p+"/t/1.2/mid/3_4",
 			p+"/users", p+"/nothing/here",
+			// escapes of escapes: the captured value is decoded exactly once
+			p+"/users/100%2541", p+"/users/100%25", p+"/users/%2541", p+"/files/a%2520b/c%25", p+"/t/x%5By/mid/%25",
+			p+"/lit/annual%20report", p+"/lit/annual%20reports", p+"/lit/annual",
 		)
 	}
-	out = append(out, "/unknown/x", "/")
+	out = append(out, "/unknown/x", "/", "/mix/f/report", "/mix/f/zzzreport", "/mix/g/report", "/mix/g/zzz.x", "/mix/f/100%2541")
 	return out
 }
 
@@ -202,10 +214,27 @@ func c08Base(r *core.Run, tr *trio, rng *rand.Rand, base string, nSpell int) {
 			}
 		}
 	}
+	if strings.HasPrefix(base, "/mix/") {
+		setting = "mix" // the setting is the one of the rule that answers (read from its id)
+	}
 	for _, ep := range entryPoints {
 		canon := tr.c08Send(ep, base)
 		if canon.Positive {
 			r.Count("canonical_positive", 1)
+		}
+		// captured values are the decoded segments - decoded once
+		if canon.Positive && (strings.HasSuffix(canon.Rule, "-single") || strings.HasSuffix(canon.Rule, "-escw") || strings.Contains(canon.Rule, "-mix")) {
+			seg := base[strings.LastIndex(base, "/")+1:]
+			want, _ := url.PathUnescape(seg)
+			got := ""
+			for _, v := range canon.Caps {
+				got = v
+			}
+			r.Count("captures_compared_with_the_decoded_segment", 1)
+			if len(canon.Caps) != 1 || got != want {
+				r.Violation("capture-is-not-the-decoded-segment:"+ep, fmt.Sprintf("%s: %q answered by %q captured %v, the decoded segment is %q", ep, base, canon.Rule, canon.Caps, want),
+					c08Case{ep, base, base, setting, "captured value " + want, canon, canon})
+			}
 		}
 		if r.Counter("sampled") < 3 && canon.Rule != "" && canon.Rule != "default" && ep == "proxy" {
 			r.Count("sampled", 1)
